@@ -710,6 +710,13 @@ func (e *env) evalCase(g *gcase) (bad, with string, drift bool) {
 	case "fcgi":
 		bad = e.station.run(g.Recs)
 		return bad, "fcgiclient", false
+	case "cgi":
+		for _, terminated := range []bool{true, false} {
+			if bad = e.station.runOut(cgiRecords(g.T, terminated)); bad != "" {
+				return bad, fmt.Sprintf("fcgiclient/terminated=%v", terminated), false
+			}
+		}
+		return "", "", false
 	case "hello":
 		b := e.bases[g.T[0]]
 		if b == nil {
@@ -848,12 +855,36 @@ func rawRecords(recs []fcgiTok) []hx.FcgiOut {
 	return []hx.FcgiOut{{Raw: raw}}
 }
 
-func (st *fcgiStation) run(recs []fcgiTok) string {
-	st.mu.Lock()
-	st.next = rawRecords(recs)
-	if len(st.next[0].Raw) == 0 {
-		st.next = []hx.FcgiOut{{Raw: []byte{}}}
+var cgiBytes = map[string]string{"SP": " ", "HT": "\t", "NBSP": "\u00a0", "NEL": "\u0085", "CRLF": "\r\n"}
+
+// cgiRecords renders a "cgi" case: the tokens form the start of the CGI header block of a
+// well-framed FastCGI answer (one stdout record, the empty stdout record, end-request).
+func cgiRecords(toks []string, terminated bool) []hx.FcgiOut {
+	var b strings.Builder
+	for _, t := range toks {
+		if r, ok := cgiBytes[t]; ok {
+			b.WriteString(r)
+		} else {
+			b.WriteString(t)
+		}
 	}
+	if terminated {
+		b.WriteString("\r\n\r\nbody")
+	}
+	return []hx.FcgiOut{{Type: hx.FcgiStdout, Content: []byte(b.String())}, {Type: hx.FcgiStdout}, hx.FcgiEndRequest()}
+}
+
+func (st *fcgiStation) run(recs []fcgiTok) string {
+	out := rawRecords(recs)
+	if len(out[0].Raw) == 0 {
+		out = []hx.FcgiOut{{Raw: []byte{}}}
+	}
+	return st.runOut(out)
+}
+
+func (st *fcgiStation) runOut(out []hx.FcgiOut) string {
+	st.mu.Lock()
+	st.next = out
 	st.mu.Unlock()
 	return guard(func() {
 		c, err := fastcgi.Dial("tcp", st.r.Addr)
@@ -985,6 +1016,11 @@ func (ls *liveSite) sendLive(g *gcase, tlsClient *http.Client) error {
 	case "fcgi":
 		ls.fmu.Lock()
 		ls.fnext = rawRecords(g.Recs)
+		ls.fmu.Unlock()
+		return raw("/fcgi/x.php", "live.test")
+	case "cgi":
+		ls.fmu.Lock()
+		ls.fnext = cgiRecords(g.T, true)
 		ls.fmu.Unlock()
 		return raw("/fcgi/x.php", "live.test")
 	case "link":
@@ -1229,7 +1265,7 @@ func TestC19(t *testing.T) {
 					continue
 				}
 				we := *e
-				if g.K == "fcgi" {
+				if g.K == "fcgi" || g.K == "cgi" {
 					if wst == nil {
 						s, err := newFcgiStation()
 						if err != nil {
@@ -1278,7 +1314,7 @@ func TestC19(t *testing.T) {
 	close(jobs)
 	wg.Wait()
 	res.AddExtra("model_drift_grammar_predictions", gdrift)
-	for _, k := range []string{"link", "ua", "tpl", "hello", "fcgi", "info"} {
+	for _, k := range []string{"link", "ua", "tpl", "hello", "fcgi", "cgi", "info"} {
 		for _, g := range cases {
 			if g.K == k && len(g.T)+len(g.Recs) >= 3 {
 				res.Sample(map[string]interface{}{"grammar_case": g})
@@ -1303,7 +1339,7 @@ func TestC19(t *testing.T) {
 		byKind := map[string][]*gcase{}
 		for _, g := range cases {
 			switch g.K {
-			case "host", "cookie", "path", "auth", "tpl", "fcgi", "link", "ua":
+			case "host", "cookie", "path", "auth", "tpl", "fcgi", "cgi", "link", "ua":
 				byKind[g.K] = append(byKind[g.K], g)
 			}
 		}
